@@ -115,7 +115,7 @@ void h_lru_put_new_room(void) { put_new_room(LRU); }
  * The evicted entry's value and key destructors run once, its node is released once, the new entry is retained. */
 static void put_new_full(enum policy pol) {
     size_t xi = pol == LIFO ? BACK : FRONT;
-    struct aws_cache *C = cache_build(BIT(xi), ALL, LHT_NONE);
+    struct aws_cache *C = cache_build(BIT(FRONT) | BIT(BACK), ALL, LHT_NONE);
     size_t max_items = C->max_items;
     __CPROVER_assume(lht_abs_size(&g_a) == max_items && !g_m.create_fails);
     __CPROVER_assume(lht_abs_visible(&g_a, xi));
